@@ -8,6 +8,7 @@ import (
 	"encoding/json"
 	"fmt"
 	"io/ioutil"
+	"math/rand"
 	"os"
 	"os/exec"
 	"path/filepath"
@@ -66,7 +67,7 @@ func c17Sets(format string) []c17Set {
 		}
 	}
 	return []c17Set{
-		mk([]string{"alpha.bin", "sub/beta.bin", "sub/deep/gamma.bin"}, []int{100, 33, 700}, 8, 3, 1),
+		mk([]string{"alpha.bin", "sub/beta.bin", "sub/deep/gamma.bin", "delta", "eps.txt", "zeta/z"}, []int{100, 33, 700, 2500, 1, 4100}, 2000, 3, 1),
 		mk([]string{"x.dat", "y.dat", "d/z.dat", "w.dat"}, []int{1, 17000, 64, 300}, 100, 5, 2),
 		mk([]string{"only.one"}, []int{70000}, 2000, 2, 3),
 	}
@@ -118,6 +119,10 @@ func runC17(args []string) error {
 			}
 		case "rotated":
 			order = append(order[1:], order[0])
+		case "shuffleA", "shuffleB":
+			// two fixed further orders (the recovery-set order must not depend on the order of the input list)
+			r := rand.New(rand.NewSource(map[string]int64{"shuffleA": 11, "shuffleB": 29}[cfg.Perm] + int64(len(order))))
+			r.Shuffle(len(order), func(i, j int) { order[i], order[j] = order[j], order[i] })
 		}
 		wd := map[string]string{"setdir": setdir, "parent": filepath.Join(root, "parent"), "unrelated": unrelated}[cfg.Cwd]
 		spell := func(rel string) string {
